@@ -19,11 +19,35 @@ ABI_PATTERN = {"mod": "zmo_{0}_mv1", "type": "{0}_zty", "impl": "zim_{0}", "meth
 ABI_SPELLING = {"mod": "eq", "type": "list", "impl": "eq", "method": "list"}
 
 
-def abi_value(level, state, k, meth=None):
+# "historical" fixed symbol names (abi_rename without `{0}`) that are reserved words of one of the target languages but ordinary
+# identifiers for rustc and the linker: a binding must still refer to exactly that symbol.  word -> module index (filled by
+# register_words); three words per module: static method, self method, destructor.
+WORDS = ("import export delete new function var with void instanceof debugger class extends switch case default finally throw catch "
+         "null undefined this "                                                             # JS
+         "def lambda pass from global is not or and del elif except raise assert nonlocal "  # Python
+         "late required dynamic covariant external factory library part show hide mixin operator "  # Dart
+         "fun val object when package typealias interface companion "                         # Kotlin
+         "namespace template typename friend xor register inline").split()                    # C / C++
+WORD_OWNER = {}
+
+
+def word_triples():
+    return [dict(zip(("sm", "im", "type"), WORDS[i:i + 3])) for i in range(0, len(WORDS) - 2, 3)]
+
+
+def register_words(m):
+    for w in (m.get("words") or {}).values():
+        if WORD_OWNER.setdefault(w, m["k"]) != m["k"]:
+            raise MachineryError("word %r used by two modules" % w)
+
+
+def abi_value(level, state, k, meth=None, words=None):
     if state == "-":
         return None
     if state == "P":
         return ABI_PATTERN[level]
+    if words and level in ("method", "type"):
+        return words[meth if level == "method" else "type"]
     tag = {"mod": "mo", "type": "ty", "impl": "ip", "method": "me"}[level]
     return "zq6l%dx_%s%s" % (k, tag, "_" + meth if level == "method" else "")
 
@@ -75,11 +99,11 @@ def module_functions(m):
     ty = "Zq%dT" % k
     out = []
     for meth in m.get("methods", METHODS):
-        chain = [abi_value("mod", st["mod"], k), abi_value("impl", st["impl"], k), abi_value("method", st["method"], k, meth)]
+        chain = [abi_value("mod", st["mod"], k), abi_value("impl", st["impl"], k), abi_value("method", st["method"], k, meth, m.get("words"))]
         out.append({"role": "method", "item": meth, "default": "%s_%s" % (ty, meth), "chain": chain,
                     "names": chain_names(chain, "%s_%s" % (ty, meth))})
     if m["owner"] in OPAQUE_OWNERS:
-        chain = [abi_value("mod", st["mod"], k), abi_value("type", st["type"], k)]
+        chain = [abi_value("mod", st["mod"], k), abi_value("type", st["type"], k, None, m.get("words"))]
         out.append({"role": "dtor", "item": "destroy", "default": "%s_destroy" % ty, "chain": chain,
                     "names": chain_names(chain, "%s_destroy" % ty)})
     # extra types of the same module: nothing written on the first type, its impl or its methods may reach them
@@ -179,8 +203,8 @@ def enabled_items(m, backend):
 # emitter
 
 
-def _abi_line(level, state, k, meth=None):
-    v = abi_value(level, state, k, meth)
+def _abi_line(level, state, k, meth=None, words=None):
+    v = abi_value(level, state, k, meth, words)
     if v is None:
         return None
     return '#[diplomat::abi_rename = "%s"]' % v if ABI_SPELLING[level] == "eq" else '#[diplomat::abi_rename("%s")]' % v
@@ -199,7 +223,7 @@ def module_src(m):
     L.append("pub mod m%d {" % k)
     if owner in OPAQUE_OWNERS:
         L.append("    #[diplomat::opaque]")
-    put("    ", _abi_line("type", st["type"], k), attr_line(a, "type", k))
+    put("    ", _abi_line("type", st["type"], k, None, m.get("words")), attr_line(a, "type", k))
     ty = "Zq%dT" % k
     if owner == "opaque":
         L.append("    pub struct %s;" % ty)
@@ -216,9 +240,9 @@ def module_src(m):
     put("    ", _abi_line("impl", st["impl"], k), attr_line(a, "impl", k))
     L.append("    impl %s {" % ty)
     if "sm" in m.get("methods", METHODS):
-        put("        ", _abi_line("method", st["method"], k, "sm"))
+        put("        ", _abi_line("method", st["method"], k, "sm", m.get("words")))
         L.append("        pub fn sm(x: u8) -> u8 { x }")
-    put("        ", _abi_line("method", st["method"], k, "im"), attr_line(a, "method", k))
+    put("        ", _abi_line("method", st["method"], k, "im", m.get("words")), attr_line(a, "method", k))
     L.append("        pub fn im(%s) -> u8 { 7 }" % slf)
     L.append("    }")
     if m.get("extra") == "sibling":
@@ -237,6 +261,8 @@ TOKEN = re.compile(r"(?:Zq(\d+)[TUV]|zq6l(\d+)x|[Rr]q(\d+)[Nn])")
 
 def module_of(sym):
     """module index a symbol belongs to (every name generated for module k carries k), or None."""
+    if sym in WORD_OWNER:
+        return WORD_OWNER[sym]
     ks = set(int(g) for mt in TOKEN.finditer(sym) for g in mt.groups() if g is not None)
     return ks.pop() if len(ks) == 1 else None
 
